@@ -14,6 +14,7 @@ TF_GLOBAL = 0x1
 TF_FULLY_DEFINED = 0x2000
 TF_UNPUBLISHED = 0x100000
 TF_TYPEDEF = 0x200000
+TF_NESTED = 0x40000
 TF_ARRAY = 0x400000
 FF_CONSTRUCTOR = 0x100
 FF_DESTRUCTOR = 0x200
